@@ -20,3 +20,25 @@ package proposal
 //@   requires proposal.Status.PrevIndex < proposal.TransactionIndex
 //@   ensures {C01,C02} aborted-advances-both: old(proposal.Status.Phases.Abort.State) == configapi.ProposalAbortPhase_ABORTING && proposal.Status.Phases.Abort.State == configapi.ProposalAbortPhase_ABORTED ==> storedCfgCommitted >= proposal.TransactionIndex && storedCfgApplied >= proposal.TransactionIndex
 //@   ensures {C01} abort-writes-no-values: cfgValueWrites == old(cfgValueWrites) && cfgCreates == old(cfgCreates)
+
+//@ func (*Reconciler).reconcileInitialize
+//@   props C02, C07
+//@   requires r != nil && proposal != nil && proposal.tracked && proposalSnapshotted(proposal) && proposalWellFormed(proposal)
+//@   requires proposal.Status.Phases.Initialize != nil
+
+//@ func (*Reconciler).reconcileValidate
+//@   props C01, C02, C05, C06, C07
+//@   requires r != nil && proposal != nil && proposal.tracked && proposalSnapshotted(proposal) && proposalWellFormed(proposal)
+//@   requires proposal.Status.Phases.Validate != nil
+
+//@ func (*Reconciler).reconcileCommit
+//@   props C01, C02, C07
+//@   requires r != nil && proposal != nil && proposal.tracked && proposalSnapshotted(proposal) && proposalWellFormed(proposal)
+//@   requires proposal.Status.Phases.Commit != nil
+//@   requires proposal.Status.PrevIndex < proposal.TransactionIndex
+
+//@ func (*Reconciler).reconcileApply
+//@   props C02, C04, C07, C10, C11
+//@   requires r != nil && proposal != nil && proposal.tracked && proposalSnapshotted(proposal) && proposalWellFormed(proposal)
+//@   requires proposal.Status.Phases.Apply != nil
+//@   requires proposal.Status.PrevIndex < proposal.TransactionIndex
